@@ -445,8 +445,13 @@ def run(rep, facts):
     into_types = set()
     for blk in b.blocks:
         t = blk["t"]
-        if t["k"] == "call" and F.norm(t["func"].get("path", "")).endswith("Into::into") and t["func"].get("args"):
-            into_types.add(t["func"]["args"][0]["s"])
+        if t["k"] == "call" and (F.norm(t["func"].get("path", "")).endswith("Into::into") or F.norm(t["func"].get("path", "")).endswith("From::from")) and t["args"]:
+            # `x.into()` and `Self::from(x)` are the same conversion: what matters is the type that is converted
+            pl = t["args"][0].get("move") or t["args"][0].get("copy")
+            if pl is not None and "p" not in pl:
+                into_types.add(b.locals[pl["l"]]["ty"]["s"])
+            elif t["func"].get("args"):
+                into_types.add(t["func"]["args"][0]["s"])
     if into_types == {"std::string::String", "&str"}:
         rep.ok("R19.5", "from-cow", "Owned(String) => String constructor (normalising); Borrowed(&str) => &str constructor", b.loc())
     else:
